@@ -240,6 +240,25 @@ def gen_cases(ck):
     return out
 
 
+def payload_assembly(ck, _binary):
+    """PayloadBuilder::build is private: drive it through the real streaming loop (harness and frame families of C12):
+    valid_payload_size / chunk layouts at every boundary, image()/payload() under catch_unwind."""
+    import c12
+    binary, log = ck.cargo_build("h_u3v")
+    if binary is None:
+        path = ck.write_replay({"kind": "build", "property": "C11", "unchecked": "payload assembly via rust/h_u3v",
+                                "log": log[-4000:]})
+        ck.violations.append((path, True, "harness rust/h_u3v does not build against the repository"))
+        return
+    cases = c12.boundary_cases()
+    impl, summ, model = c12.run_cases(ck, binary, cases)
+    raw = {id(c): o for c, o in zip(cases, impl)}
+    ck.compare(cases, summ, model, lambda c, _o: c12.predicate(c, raw[id(c)]),
+               lambda c, _o: c12.nontrivial(c, raw[id(c)]), None,
+               correspondence="frames assembled by the real loop = model/StreamLoop.v (build of model/Payload.v)",
+               family="payload assembly through the real streaming loop")
+
+
 def main():
     rc = subprocess.run([sys.executable, os.path.join(VERIF, "tools/translate.py"), "pixel"], capture_output=True, text=True)
     if rc.returncode != 0:
@@ -254,5 +273,7 @@ def main():
              "(quick: 0x01000000..0x03000000 and three windows; thorough: all 2^32 codes) compared with the count and "
              "checksum the regenerated table implies; real decoders vs extracted model; predicate = independent Python "
              "fixed-offset decoding and code->format->code identity; non-trivial = accepted input",
+        extra=payload_assembly,
         trusted=["tools/translate.py (regex translator of pixel_format.rs; asserts the catch-all arm is the only other arm)",
-                 "payload assembly (PayloadBuilder::build) is covered by the theorems and by the correspondence of check C12/h_u3v once built"])
+                 "payload assembly (PayloadBuilder::build) is exercised through the real streaming loop with the boundary "
+                 "family of tools/c12.py (rust/h_u3v over rust/shim), its traces replayed through model/StreamLoop.v"])
